@@ -46,6 +46,16 @@ CHECKS = {
          "For sector-checksum, attributes CRC32, attributes CRC32+MD5, V4 digest and weak-signature archives the protected regions are located and every byte is faulted; a faulted image must fail to open/read, or a verify operation must report failure, or every file must still read bit-identical (signed archives: any change ⇒ not WeakValid); intact images must read identically and verify everywhere. Function level: library-generated signatures over random byte strings around the 64 KiB digest unit verify and stop verifying after data-bit and signature-bit flips. Quick enumerates ≈58k faulted images, thorough every mask at every offset (exhaustive over the enumerated regions).",
          "Regions are located with the library's own header/find_file on the intact archive (location only). Only bytes the present metadata protects are faulted. A crash/OOM/hang on a faulted image is not silent corruption: it is counted and judged by C05. Open finding: multi-sector sector-checksum verification is disabled.",
          "DESIGN.md §4 C10"),
+ "C03": ("exploration",
+         "proptest-driven seeded generators + deterministic boundary grid + bounded-exhaustive sparse family; round-trip oracle; independent reference decoders (flate2, bzip2, own sparse and DCL decoders) as cross-checks",
+         "∀ generated byte strings of length 0..2^21 over 13 content classes and ∀ selectors ∈ {zlib, bzip2, LZMA, sparse, PKWare, ADPCM mono/stereo, all two-flag combinations}: compress never expands, stores raw when not shrunk, prefixes the method byte, and both decompress (default limits) and decompress_secure return the input exactly; for lossy selectors the same length and, on the silent-channel construction, preserved interleaving. 106k cases quick, 1.5M thorough, every listed boundary length hit by construction.",
+         "Five open findings (own output refused as bomb at ratio above 1000; PKWare encoder/decoder mode mismatch; ADPCM+bzip2 stage size; IMPLODE-bit selectors; 0xC0 mono/stereo mismatch) are excluded by switch and measured by canaries. ADPCM fidelity and selectors with three or more flags are not decided.",
+         "DESIGN.md §4 C03"),
+ "C12": ("fault_enumeration",
+         "ptrace supervisor numbering every sandbox file-system call of build/compact; every call index × {kill before, kill after, ENOSPC, EIO, short write} + byte quotas; destination-state oracle",
+         "For ArchiveBuilder::build (destination absent / existing archive / non-archive bytes × 3 file sets) and MutableArchive::compact, V1..V4, a counting run yields the N file-system calls that touch the sandbox; every k in 1..N is then killed before/after, failed with ENOSPC/EIO or shortened, and byte quotas model a full disk. Afterwards the destination must be absent (only if it was), byte-identical to before, or a complete new archive that opens and reads back every file; reported Err ⇒ previous state, reported Ok ⇒ new state. Exhaustive over k for the enumerated configurations (thorough; quick strides the non-essential previous-state variants).",
+         "Process death and failing system calls are modelled, not power-loss reordering. Compaction is traced on a handle without pending changes (in-place flush is not claimed atomic). x86_64 ptrace.",
+         "DESIGN.md §4 C12"),
  "C13": ("exploration",
          "property-based round-trip / metamorphic testing (proptest + deterministic grid) with an independent header/record layout walker (m2layout)",
          "On every generated model (28 sections each empty/one/many, key-frame payloads on all track kinds, extreme floats, long names) in versions 256/260/264/272, every skin in old/new layouts and every anim file in both containers: parse(write(x)) equals x on all listed content bitwise, write(parse(write(x))) == write(x), an independent walker finds every (count, offset) inside the file and non-overlapping, convert to the same version changes neither content nor bytes, and convert a→b (all 25 pairs, both entry points) keeps every field both versions have a slot for; panics are failures. Quick 54 884 cases, thorough 1.28 M.",
